@@ -211,6 +211,12 @@ def check_recovery(sim, stats, info, acc, kind, fault, step, scb="ok"):
         acc.count("faults_injected")
         acc.violation(f"receive-path-spins-on-end-of-stream:{kind}", f"{kind}: after '{fault}' the receive path performed {spins[0]['reads_in_one_step']} reads returning end-of-stream inside one loop step (event loop monopolised, no DISCONNECTED)", w)
         return
+    if not sim.conns and len(sim.attempts) == 0:
+        # the gateway accepts, the application called connect() - and the client never even tried
+        acc.case((kind, fault, step, scb))
+        acc.violation("no-reconnect-after-fault", f"{kind}: connect() was called and the gateway accepts, but the client made no connection attempt in the whole session "
+                      f"(statuses {sim.status}; other clients of the process were busy connecting)", w)
+        return
     if not info["injected"]:
         acc.case(None)
         acc.count("fault_not_injectable_at_step")
@@ -539,7 +545,7 @@ def run_shard(spec, acc):
     for k_, step in enumerate(steps):
         by = k_ % 3 == 2            # every third session: an untouched second client in the same process must not notice anything
         sim, stats, info = fault_session(kind, fault, step, scb=scb, mapping=mapping, settle=50.0 if fault == "busy_reply" else 40.0, bystander=by,
-                                        cb_style=("method", "object", "lambda", "partial")[k_ % 4])
+                                        cb_style=("method", "object", "lambda", "partial", "orphan-method")[k_ % 5])
         check_recovery(sim, stats, info, acc, kind, fault, step, scb)
         if by and sim is not None and not stats["error"]:
             simgw.judge_bystander(sim, acc, {"client": kind, "fault": fault, "step": step, "status_cb": scb})
